@@ -327,6 +327,47 @@ class Check(object):
                                 'found_input': bool(found_input),
                                 'what': what})
 
+    def handle_failed(self, find_witness, function=''):
+        """Policy for undischarged obligations (DESIGN 3.1):
+          * a witness replayed on the real code -> VIOLATION with replay
+          * `sat` post-condition / invariant / call-precondition obligation
+            without a reproducing input -> VIOLATION ... no-failing-input-found
+          * `sat` exception-freedom obligation that does not reproduce, and
+            every `unknown` -> UNDECIDED (never a VIOLATION line)
+        find_witness(oid, status, model) -> dict(witness=..., native=...) or
+        None."""
+        failed = self.failed_obligations()
+        reported = set()
+        for oid, status, model, raw, ob in failed:
+            base = oid.split('@')[0]
+            w = None
+            try:
+                w = find_witness(oid, status, model)
+            except Exception as e:     # replay machinery failure
+                self.notes.append('replay failed for %s: %s' % (oid, e))
+            kind = getattr(ob, 'kind', 'extra') if ob is not None else 'extra'
+            payload = {'function': function, 'status': status,
+                       'solver_output': (raw or '')[:3000],
+                       'model': {k: repr(v) for k, v in (model or {}).items()},
+                       'where': getattr(ob, 'where', ''),
+                       'goal': str(getattr(ob, 'goal', ''))[:1500]}
+            if w:
+                payload.update(w)
+                if base in reported:
+                    continue
+                reported.add(base)
+                self.report_violation(oid, payload, True,
+                                      what='%s is %s; failing input replayed '
+                                           'on the real code' % (oid, status))
+            elif status == smt.SAT and kind not in ('exc-freedom',):
+                if base in reported:
+                    continue
+                reported.add(base)
+                self.report_violation(oid, payload, False,
+                                      what='%s is sat (obligation that holds '
+                                           'on the pinned tree)' % oid)
+            # else: stays undecided (finish() prints UNDECIDED lines)
+
     # ------------------------------------------------------------------
     def finish(self, level, explanation, rule='', checker_cmd=None,
                extra_cov=None):
